@@ -664,12 +664,18 @@ Definition resize_pool (c : config) (requested : N) (w : world) : world :=
       set_pool_size nw (shrink_pool c (N.to_nat (cur - nw)) nw w)
     else w.
 
-(* handle_supervisor_evt for ActorTerminated / ActorFailed of actor `who` *)
+(* handle_supervisor_evt for ActorTerminated / ActorFailed of actor `who`.
+   A worker that dies while draining with nothing queued is retired instead of replaced
+   (retire_dead_draining_worker). *)
 Definition worker_died (c : config) (who : N) (w : world) : world :=
   match lookup who (by_actor w) with
   | Some wid =>
       match lookup wid (pool w) with
-      | Some _ =>
+      | Some p =>
+          if w_drain p && match w_queue p with [] => true | _ => false end then
+            set_by_actor (remove_key who (by_actor w))
+              (set_pool (remove_key wid (pool w)) (on_avail c wid false w))
+          else
           let aid := next_aid w in
           let w := set_actors (actors w ++ [(aid, new_actor wid)]) (set_next_aid (aid + 1) w) in
           let w := with_worker wid (fun x => replace_worker (now w) x aid) w in
